@@ -58,6 +58,12 @@ STRENGTHENED = {
     "C17-w3m1": "keyword values that are dicts filled in different orders",
     "C17-w3m2": "`get_all…` consumed incrementally around a construction (`ssalli`)",
     "C19-w3m2": "whitelist tables handed in as read-only views (`MappingProxyType`) of dicts the caller goes on to edit",
+    "C14-w3m2": "title formats whose replacement field reads an attribute OF the value (`T{a0.real}`, option table 7, model `VOpts.viaAttr`); a render that raises on a universe in which everything is renderable is judged by the oracle (`renderable`)",
+    # wave 4 (same brief as waves 1-2; run against the machinery as it stood after wave 3)
+    "C05-w4m1": "filters that are PLAIN functions without a closure sharing ONE code object and differing only in their defaults (the loop idiom `lambda e, v, k=k: …`), two of them back to back on the same vertex",
+    "C06-w4m2": "in generator mode a SECOND generator of the same traversal is consumed in lock-step with the first (`zip(ibft(..), ibft(..))`); oracle: both list the vertices once and stop",
+    "C16-w4m2": "the C16 oracle evaluates the documented FORWARD rule link by link instead of asking `neighbors()`",
+    "C20-w4m2": "reproducibility is compared on the STRUCTURE of two seeded results while the first is kept alive; the RNG tap passes other generator functions through (and then skips the model replay) instead of failing; the statement is judged directly on every seeded run",
     "C20-w3m1": "a two-ended link class whose constructor names its ends differently",
 }
 _EQ = ("needs graph objects (vertices / law sets) that override `__eq__`/`__hash__` so that distinct objects compare equal; the unchanged "
